@@ -86,3 +86,13 @@ Example C13_example :
   /\ to2bit [] (bs "ACNT") = Panic
   /\ ntoi 103 = 2%Z /\ iton 2 = 71 /\ iton 4 = 78 /\ iton (-1) = 78.
 Proof. vm_compute. repeat split; repeat constructor. Qed.
+
+(* ---- tie to the Go source by translation (gen/SrcGen.v, regenerated on every run) ---- *)
+From Bio.gen Require SrcGen.
+From Bio.Proofs Require SrcGenProofs.
+
+(* Iton of the model (a table read out for -1..4 plus a default) is, for EVERY int,
+   the function translated from sequtil/sequtil.go. *)
+Theorem C13_iton_is_source : forall i, Z.of_N (Bio.Model.Seq.iton i) = SrcGen.src_sequtil_Iton i.
+Proof. exact SrcGenProofs.iton_is_source. Qed.
+Print Assumptions C13_iton_is_source.
